@@ -1197,6 +1197,8 @@ fn _normalize_attribute(text: StrSpan, buffer: &mut TextBuffer, ctx: &mut Contex
                 Some(entity) => {
                     ctx.loop_detector.inc_references(&stream)?;
                     ctx.loop_detector.inc_depth(&stream)?;
+                    // The replacement text must consist of XML characters only.
+                    Stream::from_substr(ctx.doc.text, entity.value.range()).skip_xml_chars()?;
                     _normalize_attribute(entity.value, buffer, ctx)?;
                     ctx.loop_detector.dec_depth();
                 }
